@@ -130,7 +130,8 @@ def run_shard(ctx):
             bad("shape", "a serializable object was not serialized as a mapping", path=path, call=call)
             return
         tn = type(obj).__name__
-        if isinstance(obj, Source) and tn != "NoSource" and (idx or (dialect == ASTSerializationDialects.AST_TEST and path.endswith("origin.source"))):
+        test_stub = dialect == ASTSerializationDialects.AST_TEST and path.endswith("origin.source")  # the test dialect stubs the source of every node's origin, NoSource included
+        if isinstance(obj, Source) and ((tn != "NoSource" and idx) or test_stub):
             if dialect == ASTSerializationDialects.AST_TEST and path.endswith("origin.source"):
                 keys = list(out)
                 if skip and TYPE_KEY in out:
